@@ -191,7 +191,7 @@ impl HyraxPC {
 //@rw 1 /let mut states = Vec::new\(\);/ => let mut states: Vec<HyraxCommitmentState> = Vec::new();
 //@rw 1 /let dim = 1 << n \/ 2;/ => proof { vstd::arithmetic::power2::lemma_pow2_strictly_increases((n / 2) as nat, 64); vstd::arithmetic::power2::lemma2_to64(); vstd::arithmetic::power2::lemma_pow2_pos((n / 2) as nat); vstd::bits::lemma_usize_shl_is_mul(1usize, (n / 2) as usize); }
             let dim: usize = 1 << n / 2;
-//@before /let com_rands: Vec<G::ScalarField> =/
+//@before /let com_rands: Vec<G::ScalarField> =/ #1
             let ghost posk = rng_inner.pos@;
 //@rw 1 /(?s)let com_rands: Vec<G::ScalarField> = \(0\.\.m\.len\(\)\)\s*\.map\(\|_\| (.*?)\)\s*\.collect\(\);/ => let mut com_rands: Vec<Fr> = Vec::new();
             let mut ri__: usize = 0;
